@@ -95,11 +95,12 @@ META["C04"] = {
             "and the refusal rule; every plan is replayed through TrajectoryExporter.parse_plan/export and Operator.apply and "
             "TLC recomputes each triplet; random plans over random typed domains are trace-validated."}
 META["C07"] = {
-    "engine": "V(+M)", "design_ref": "DESIGN.md section 6 (C07)", "note": HIST_NOTE + " Thread "
+    "engine": "M+G+V", "design_ref": "DESIGN.md section 6 (C07)", "note": HIST_NOTE + " Thread "
             "interleavings: one pre-emption at line granularity (sys.settrace), not bytecode-level races.",
-    "technique": "trace validation of API-call histories against the PddlApi store: after every call TLC checks that every live "
-                 "handle (states, runs, domain digest) still has its stored value",
-    "text": "Random call histories over one shared domain are recorded with a snapshot of every live handle after each call; "
+    "technique": "TLC model of the object model as a machine over a heap of mutable containers (MC_Api: Faithful holds, the two "
+                 "aliasing designs are refuted); its behaviours replayed into the library and random API-call histories are "
+                 "validated against the PddlApi store: after every call every live handle still has its stored value",
+    "text": "MC_Api behaviours (exhaustive short, simulated long) and random call histories over one shared domain are recorded with a snapshot of every live handle after each call; "
             "the trace specification checks store'[h] = store[h] for all handles and that each call's result equals the "
             "specification's, so aliasing between an earlier result and a later call is a rejected trace."}
 META["C10"] = {
@@ -109,9 +110,10 @@ META["C10"] = {
     "text": "For TLC-generated and random plans the exported trajectory text and the observation parsed from it (with and "
             "without the problem) are judged by TLC against the run's triplets: alternation, headers, calls, states, chain."}
 META["C14"] = {
-    "engine": "V(+M)", "design_ref": "DESIGN.md section 6 (C14)", "note": HIST_NOTE,
-    "technique": "trace validation of ==, copy and serialization of states reached through different operation sequences "
-                 "against the specification's state equality",
+    "engine": "M+G+V", "design_ref": "DESIGN.md section 6 (C14)", "note": HIST_NOTE,
+    "technique": "TLC model MC_Api (copy / == / apply over a heap: Faithful, EqSound) with its behaviours replayed into the "
+                 "library; trace validation of ==, copy and serialization of states reached through different operation "
+                 "sequences against the specification's state equality",
     "text": "States reached by parsing, successors, copies and re-parsed trajectories are compared with ==, copied and "
             "snapshotted; TLC judges every answer with StEq on the stored abstract values and every snapshot for independence."}
 META["C01"] = {
